@@ -111,8 +111,15 @@ pub fn record_tree_violation(
         let mut pred = |t: &Tree| first_mismatch(t, table, &rr(t), paths).is_some();
         let s = shrink_tree(tree, &mut pred, 400);
         let st = rr(&s);
-        let (p, mm) = first_mismatch(&s, table, &st, paths).expect("shrunk case still fails");
-        (s, st, p, mm)
+        match first_mismatch(&s, table, &st, paths) {
+            Some((p, mm)) => (s, st, p, mm),
+            // the failure does not reproduce on re-evaluation (it depends on what this thread did
+            // before): the original observation is the witness
+            None => {
+                stats.bump("violations_not_reproducible_on_re_evaluation");
+                (tree.clone(), text.to_string(), path, m.clone())
+            }
+        }
     } else {
         (tree.clone(), text.to_string(), path, m.clone())
     };
